@@ -27,6 +27,12 @@ __all__ = ['StreamingDecoder', 'Decoder', 'decode']
 
 LOG = debug.registerLoggee(__name__, flags=debug.DEBUG_DECODER)
 
+try:
+    RecursionError
+
+except NameError:  # Python < 3.5
+    RecursionError = RuntimeError
+
 noValue = base.noValue
 
 SubstrateUnderrunError = error.SubstrateUnderrunError
@@ -2010,9 +2016,17 @@ class StreamingDecoder(object):
 
     def __iter__(self):
         while True:
-            for asn1Object in self._singleItemDecoder(
-                    self._substrate, self._asn1Spec, **self._options):
-                yield asn1Object
+            try:
+                for asn1Object in self._singleItemDecoder(
+                        self._substrate, self._asn1Spec, **self._options):
+                    yield asn1Object
+
+            except RecursionError:
+                # the decoder descends into a component before it can tell
+                # whether the component fits its container, so a run of
+                # headers nests as deep as it is long
+                raise error.PyAsn1Error(
+                    'ASN.1 structure nested too deeply to decode')
 
             for chunk in isEndOfStream(self._substrate):
                 if isinstance(chunk, SubstrateUnderrunError):
